@@ -75,13 +75,16 @@ void AppendDomain(util::Serializer &dump, const std::string domain)
 }
 
 /// 从缓冲中提取domain，与AppendDomain()相反
-std::string FetchDomain(util::Deserializer &parser)
+/// 返回false表示数据不完整或非法（含压缩指针成环）
+bool FetchDomain(util::Deserializer &parser, std::string &domain, int depth = 0)
 {
+    const int kMaxPointerDepth = 16;    //! compression pointers may chain, but never without bound
     std::ostringstream oss;
     bool first = true;
     for (;;) {
         uint8_t len = 0;
-        parser >> len;
+        if (!parser.fetch(len))
+            return false;
         if (len == 0)
             break;
 
@@ -92,20 +95,28 @@ std::string FetchDomain(util::Deserializer &parser)
         //! 处理压缩的字串
         if ((len & 0xc0) == 0xc0) {
             uint8_t offset_low = 0;
-            parser >> offset_low;
+            if (!parser.fetch(offset_low))
+                return false;
             uint16_t offset = (len & 0x3f) << 8 | offset_low;
+            if (depth >= kMaxPointerDepth)
+                return false;
             util::Deserializer sub_parser(parser);
-            sub_parser.set_pos(offset);
-            oss << FetchDomain(sub_parser);
+            if (!sub_parser.set_pos(offset))
+                return false;
+            std::string sub_domain;
+            if (!FetchDomain(sub_parser, sub_domain, depth + 1))
+                return false;
+            oss << sub_domain;
             break;
         } else {
-            char str[len + 1];
-            parser.fetch(str, len);
-            str[len] = '\0';
-            oss << str;
+            const void *str = parser.fetchNoCopy(len);
+            if (str == nullptr)
+                return false;
+            oss << std::string(static_cast<const char*>(str), len);
         }
     }
-    return oss.str();
+    domain = oss.str();
+    return true;
 }
 
 }
@@ -214,8 +225,9 @@ void DnsRequest::onUdpRecv(const void *data_ptr, size_t data_size, const SockAdd
     RECORD_SCOPE();
     util::Deserializer parser(data_ptr, data_size);
 
-    uint16_t req_id, flags;
-    parser >> req_id >> flags;
+    uint16_t req_id = 0, flags = 0;
+    if (!parser.fetch(req_id) || !parser.fetch(flags))
+        return;     //! too short to be a reply
 
     Request *req = findRequest(req_id);
     if (req == nullptr)
@@ -230,46 +242,51 @@ void DnsRequest::onUdpRecv(const void *data_ptr, size_t data_size, const SockAdd
     Result result;
 
     if (rcode == 0) {   //! 正常
-        uint16_t qd_count, an_count, ns_count, ar_count;
-        parser >> qd_count >> an_count >> ns_count >> ar_count;
-
-#if 0
-        LogTrace("id:%d, flags:%04x, qd_count:%d, an_count:%d, ns_count:%d, ar_count:%d",
-               id, flags, qd_count, an_count, an_count, ns_count, ar_count);
-#endif
+        //! a truncated or malformed reply is ignored as a whole (nothing in it can be trusted)
+        uint16_t qd_count = 0, an_count = 0, ns_count = 0, ar_count = 0;
+        if (!parser.fetch(qd_count) || !parser.fetch(an_count) ||
+            !parser.fetch(ns_count) || !parser.fetch(ar_count))
+            return;
 
         //! 解析Question字段
         for (uint16_t i = 0; i < qd_count; ++i) {
-            FetchDomain(parser);
-            uint16_t dns_type, dns_class;
-            parser >> dns_type >> dns_class;
+            std::string domain;
+            uint16_t dns_type = 0, dns_class = 0;
+            if (!FetchDomain(parser, domain) ||
+                !parser.fetch(dns_type) || !parser.fetch(dns_class))
+                return;
         }
 
         for (uint16_t i = 0; i < an_count; ++i) {
-            FetchDomain(parser);
-            uint16_t an_type, an_class, an_len;
-            uint32_t an_ttl;
-            parser >> an_type >> an_class >> an_ttl >> an_len;
+            std::string owner;
+            uint16_t an_type = 0, an_class = 0, an_len = 0;
+            uint32_t an_ttl = 0;
+            if (!FetchDomain(parser, owner) ||
+                !parser.fetch(an_type) || !parser.fetch(an_class) ||
+                !parser.fetch(an_ttl) || !parser.fetch(an_len))
+                return;
 
-#if 0
-            LogTrace("type:%d, class:%d, ttl:%d, len:%d", an_type, an_class, an_ttl, an_len);
-#endif
             if (an_type == DNS_TYPE_A) {
-                uint32_t ip_value;
+                uint32_t ip_value = 0;
                 auto old_endian = parser.setEndian(util::Endian::kLittle);
-                parser >> ip_value;
+                bool is_ok = parser.fetch(ip_value);
                 parser.setEndian(old_endian);
+                if (!is_ok)
+                    return;
                 A a = { an_ttl, IPAddress(ip_value) };
                 result.a_vec.push_back(a);
 
             } else if (an_type == DNS_TYPE_CNAME) {
-                std::string domain = FetchDomain(parser);
+                std::string domain;
+                if (!FetchDomain(parser, domain))
+                    return;
                 CNAME cname = { an_ttl, DomainName(domain) };
                 result.cname_vec.push_back(cname);
 
             } else {
                 LogNotice("unknow type:%d", an_type);
-                parser.skip(an_len);
+                if (!parser.skip(an_len))
+                    return;
             }
         }
     } else {
